@@ -2,7 +2,7 @@ from common import LEAN_TB
 
 CHECK = {
     "title": "Emitted OCI artifacts are well-formed and mirror the configuration",
-    "modules": ["Apko.Proofs.C12"],
+    "modules": ["Apko.Proofs.Lemmas.OciTar", "Apko.Proofs.Lemmas.OciList", "Apko.Proofs.C12"],
     "suites": [("oci", 300, 6000)],
     "fact_prefixes": ["index.go", "image.go", "types.go"],
     "hashes": {
